@@ -402,3 +402,18 @@ package callbacks
 //@   in callbacks.ConvertToCreateValues
 //@   min-sites 10
 //@   assert admitted-by-select-and-omit: defined(rvOfvalue) ==> selectColumns[field.DBName] || (!has(selectColumns, field.DBName) && !restricted) [C10]
+
+//@ # ---------- C08: an association join carries the joined model's soft-delete filter, with or without ON conditions ----------
+//@ # The ON clause of Joins("Rel") / Joins("Rel", db.Where(...)) is built from the joined schema's query modifiers
+//@ # (the soft-delete filter among them) and then the caller's conditions: the modifiers are applied on every path
+//@ # before the ON text is rendered.
+//@ ghost joinModifiersApplied
+//@ func BuildQuerySQL${call:gorm.(*Statement).SelectAndOmitColumns}
+//@   tags C08
+//@   loop "range relation.FieldSchema.QueryClauses" exit-do joinModifiersApplied = 1
+//@ site join-on-built-after-the-joined-models-modifiers
+//@   match call clause.(Where).Build
+//@   in callbacks.BuildQuerySQL$*
+//@   min-sites 1
+//@   entry joinModifiersApplied == 0
+//@   assert joined-schema-modifiers-applied: joinModifiersApplied == 1 [C08]
